@@ -215,15 +215,24 @@ end WL
 
 /-! ### traces -/
 
+theorem isAncestor_sublist {β} [DecidableEq β] (t' : Trace β) :
+    ∀ (t : Trace β), isAncestor t' t = true → (t'.Nodup ∨ True) ∧ (t.Nodup → t'.Nodup) ∧ (∀ x ∈ t', x ∈ t)
+  | [], h => by
+    simp only [isAncestor, beq_iff_eq] at h
+    subst h; simp
+  | y :: r, h => by
+    simp only [isAncestor, Bool.or_eq_true, beq_iff_eq] at h
+    rcases h with h | h
+    · subst h; simp
+    · have ih := isAncestor_sublist t' r h
+      refine ⟨Or.inr trivial, fun hn => ih.2.1 (List.nodup_cons.1 hn).2, fun x hx => ?_⟩
+      simp [ih.2.2 x hx]
+
 theorem nodup_of_traceStep {β} [DecidableEq β] (t t' : Trace β) (hn : t.Nodup)
     (hs : traceStep t t' = true) (hl : lasso t' = false) : t'.Nodup := by
-  simp only [traceStep, Bool.or_eq_true, beq_iff_eq] at hs
-  rcases hs with (h | h) | h
-  · subst h; exact hn
-  · subst h
-    cases t with
-    | nil => simp
-    | cons x r => exact (List.nodup_cons.1 hn).2
+  simp only [traceStep, Bool.or_eq_true] at hs
+  rcases hs with h | h
+  · exact (isAncestor_sublist t' t h).2.1 hn
   · cases t' with
     | nil => simp
     | cons x r =>
@@ -234,12 +243,10 @@ theorem nodup_of_traceStep {β} [DecidableEq β] (t t' : Trace β) (hn : t.Nodup
 
 theorem subset_of_traceStep {β} [DecidableEq β] (L : List β) (t t' : Trace β) (hsub : ∀ x ∈ t, x ∈ L)
     (hs : traceStep t t' = true) (hnew : ∀ x, t'.head? = some x → x ∈ L) : ∀ x ∈ t', x ∈ L := by
-  simp only [traceStep, Bool.or_eq_true, beq_iff_eq] at hs
-  rcases hs with (h | h) | h
-  · subst h; exact hsub
-  · subst h
-    intro x hx
-    exact hsub x (List.mem_of_mem_tail hx)
+  simp only [traceStep, Bool.or_eq_true] at hs
+  rcases hs with h | h
+  · intro x hx
+    exact hsub x ((isAncestor_sublist t' t h).2.2 x hx)
   · cases t' with
     | nil => simp
     | cons y r =>
